@@ -1,5 +1,6 @@
 """C15 - the value encoding is lossless and collision-free."""
-import vlib
+import itertools
+import progcheck, vlib
 from lattice import int_lattice, rand_int, rand_float_bits, FLOAT_SPECIALS
 
 COQ_TARGETS = ["props/C15.vo", "corr/CorrWord.vo"]
@@ -47,6 +48,8 @@ def desc_rust(d):
 
 
 def run(ctx, log):
+    # the same small programs at every size around the widths the implementation encodes things in (closed-form results)
+    progcheck.run_scale(ctx, log, ['constants'])
     rng = ctx.rng
     cases = []   # (rust line, builder(obs) -> coq term or None, python-side oracle(obs) -> error or None, label)
     ints = int_lattice() + [rand_int(rng) for _ in range(300 if ctx.quick else 20000)]
@@ -187,6 +190,23 @@ def run(ctx, log):
               ("stel a = string(\"abc\"); a[0] = \"XY\"; [\"abc\", a, lengte(\"abc\")]", "OK #0=A[#1=S97.98.99,#2=S88.89.98.99,i3]"),
               ("stel a = string(\"q\"); stel b = string(\"q\"); a[0] = \"w\"; [a, b, \"q\" == b]", "OK #0=A[#1=S119,#2=S113,b1]"),
               ("[-1, 0 - 1, -(1), 1]", "OK #0=A[i-1,i-1,i-1,i1]")]
+    # literals through the SOURCE TEXT: any text (escapes next to multi-byte characters), any float and integer written
+    # as a literal is read back as written, and a value made at run time equals / does not differ from the literal
+    import struct
+    alpha = ["a", "é", "€", "🇳", "\"", "\\", "{}", "n", " ", "語"]
+    texts = ["".join(p) for n in (1, 2) for p in itertools.product(alpha, repeat=n)] + ["".join(rng.choice(alpha) for _ in range(rng.randint(3, 9))) for _ in range(60 if ctx.quick else 2000)]
+    for t in texts:
+        edits.append(("stel s = %s; stel t = [s]; [s, lengte(s), t[0] == s, s != t[0]]" % nlast.quote(t), "OK #0=A[#1=S%s,i%d,b1,b0]" % (nlast.cps(t), len(t))))
+    for b in list(FLOAT_SPECIALS) + [rand_float_bits(rng) for _ in range(40 if ctx.quick else 1500)]:
+        x = struct.unpack(">d", bytes.fromhex(b))[0]
+        r = repr(x)
+        if x != x or "inf" in r or "e" in r or r.startswith("-") or len(r) > 17:
+            continue
+        eq = "b1,b0,b1,b0"
+        edits.append(("stel a = [%s * 1.0]; stel b = -(-(a[0])); [b == %s, b != %s, %s == b, %s != b, b]" % (r, r, r, r, r), "OK #0=A[%s,#1=F%s]" % (eq, b)))
+    for z in [0, 1, 7, 2 ** 60 - 1, 2 ** 59, 65536 * 3 + 1] + [rand_int(rng) for _ in range(20)]:
+        if z >= 0:
+            edits.append(("stel a = [%d]; stel b = a[0] + 0; [b == %d, b != %d, b]" % (z, z, z), "OK #0=A[b1,b0,i%d]" % z))
     eo = vlib.nlh("eval", ["1000 " + vlib.hexs(src) for src, _ in edits], tag="c15e")
     for (src, exp), o in zip(edits, eo):
         ctx.seen(src)
